@@ -121,6 +121,7 @@ def boot(modules="all", order=None) -> Boot:
     names = ALL_MODULES if modules == "all" else list(modules)
     if order is not None:
         names = list(order)
+    b.import_order = list(names)
     for name in names:
         try:
             importlib.import_module(f"measured.{name}")
